@@ -55,6 +55,11 @@ CHECKS = {
          "The AD-issued sample PAC is re-signed by the reference under every signature type with seeded keys; every single-bit flip (exhaustive for selected variants in quick, all in thorough), truncations, removal/duplication/every permutation of buffers (re-signed), RODC identifier, wrong keys, keys of other etypes and changed declared types are presented to PACType.ProcessPACInfoBuffers; Ticket.GetPACType and service.VerifyAPREQ are driven with reference-minted tickets around the PAC. Accept/reject must equal the reference verdict on the same bytes and accepted PACs must expose the sample's known attributes.",
          "Trusts ref/pac (verifies the AD-issued sample under its real key at every run). Attribute faithfulness is against known contents of one sample, not an independent NDR decoder. Duplicated signature buffers judged for soundness only.",
          "5.C19"),
+ "C16": ("differential runtime monitor: krb5.conf loader, resolver and KDC selection vs independent model/renderer/reference parser; exhaustive resolver space",
+         "exploration",
+         "Generated configuration models are rendered to text with randomised layout inside the syntax MIT documents (comments, whitespace, CRLF, section order, unknown keys/sections, nested blocks, final-value marker, ports) and loaded by config.NewFromString: every modelled field must equal the model; single structural deletions must be rejected; ResolveRealm is compared with a reference resolver for every hostname over labels {a,b} to depth 5 against every subset of its relevant mapping keys (exhaustive); GetKDCs/GetKpasswdServers must return exactly the configured multiset with keys 1..n and leave the Config unchanged.",
+         "Trusts ref/conf (each rendered file is first read back by the reference parser; failure there is inconclusive). Observe-only where MIT's documentation does not settle the case (on/off/nil booleans, repeated section headers, trailing comments after values, dot-less parent domains, invalid value spellings, kpasswd_server without port).",
+         "5.C16"),
 }
 
 NOT_YET = "check not built yet in this revision of /verif (construction in progress, see DESIGN.md section 9)"
